@@ -1099,6 +1099,58 @@ func c15Oracle(c *oracleCtx) {
 		}
 	}
 	runtime.GOMAXPROCS(4)
+	c.check("async-identity", true, func() string {
+		// the callbacks receive what Get / the sequential variants hand out: the stored containers themselves
+		// (by reference, derived types included), not copies
+		in, dl, do := NewList(1), newDList(2), newDObject("z", 3)
+		l := NewList(in, NewObject("a", 1), dl, do, "s", 7)
+		o := NewObject("l", in, "o", NewObject("b", 2), "dl", dl, "do", do, "n", nil, "i", 1)
+		var mu sync.Mutex
+		bad := ""
+		l.ForEachAsync(func(i int, v any) {
+			mu.Lock()
+			defer mu.Unlock()
+			if !same(v, l.Get(i)) {
+				bad = fmt.Sprintf("list ForEachAsync passes %T for element %d, Get returns %T (not the identical value)", v, i, l.Get(i))
+			}
+		})
+		o.ForEachAsync(func(k string, v any) {
+			mu.Lock()
+			defer mu.Unlock()
+			if !same(v, o.Get(k)) {
+				bad = fmt.Sprintf("object ForEachAsync passes %T for key %q, Get returns %T (not the identical value)", v, k, o.Get(k))
+			}
+		})
+		if bad != "" {
+			return bad
+		}
+		id := func(_ int, v any) any { return v }
+		ma, ms := l.MapAsync(id), l.Map(id)
+		for i := 0; i < l.Count(); i++ {
+			if !same(ma.Get(i), ms.Get(i)) || !same(ma.Get(i), l.Get(i)) {
+				return fmt.Sprintf("list MapAsync(identity) element %d is not the identical stored value", i)
+			}
+		}
+		oid := func(_ string, v any) any { return v }
+		oa, os := o.MapAsync(oid), o.Map(oid)
+		for _, k := range []string{"l", "o", "dl", "do", "n", "i"} {
+			if !same(oa.Get(k), os.Get(k)) || !same(oa.Get(k), o.Get(k)) {
+				return fmt.Sprintf("object MapAsync(identity) field %q is not the identical stored value", k)
+			}
+		}
+		// a callback that mutates the container it is given must reach the stored one
+		o.ForEachAsync(func(k string, v any) {
+			if x, ok := v.(List); ok {
+				mu.Lock()
+				x.Add("seen")
+				mu.Unlock()
+			}
+		})
+		if in.Count() != 2 || dl.Count() != 2 {
+			return "a mutation made by an object ForEachAsync callback did not reach the stored list"
+		}
+		return ""
+	})
 	c.check("nested-async", true, func() string {
 		// an async call inside an async callback must still terminate (no bounded worker pool)
 		outer := NewList()
